@@ -1553,7 +1553,19 @@ impl HandlerRunner {
                 let body: u64 = body.parse().unwrap_or(1);
                 let yenr = if to_ed { self.ed_enr.clone().unwrap() } else { self.nodes[yi].enr.clone() };
                 let yaddr = if to_ed { node_addr(ED_IDENTITY) } else { self.nodes[yi].addr };
-                let contact = if *how == "enr" {
+                // `scoped`: the contact names the peer's IPv6 socket with an interface scope (`fe80::1%3`, the
+                // way a link-local address has to be written on a multi-homed host); datagrams sent there
+                // reach the peer, whose own datagrams arrive from the address without a scope
+                let scoped = *how == "scoped";
+                let yaddr = match (scoped, yaddr) {
+                    (true, SocketAddr::V6(mut s6)) => {
+                        s6.set_scope_id(3);
+                        stats.bump("h.op.req-to-a-scoped-address");
+                        SocketAddr::V6(s6)
+                    }
+                    _ => yaddr,
+                };
+                let contact = if *how == "enr" || scoped {
                     NodeContact::new(yenr.public_key(), yaddr, Some(yenr.clone()))
                 } else {
                     NodeContact::new(yenr.public_key(), yaddr, None)
@@ -1563,7 +1575,9 @@ impl HandlerRunner {
                 let xidx = self.nodes[xi].idx;
                 let yidx = if to_ed { ED_IDENTITY } else { self.nodes[yi].idx };
                 if to_ed { stats.bump("h.op.req-to-ed25519-identity"); }
-                self.ledger.reqs.insert((xidx, rid), ReqLedger { sent_at: self.now_ms, to: yidx, ..Default::default() });
+                // (a request to a scoped address is outstanding towards that address, which is no node's own:
+                // the per-address exemption count of `mon_exempt` leaves it out)
+                self.ledger.reqs.insert((xidx, rid), ReqLedger { sent_at: self.now_ms, to: if scoped && yaddr.is_ipv6() { 77 } else { yidx }, ..Default::default() });
                 let _ = self.nodes[xi].to_handler.send(HandlerIn::Request(contact, Box::new(req)));
                 let na = format!("{}@{}", yidx, self.addr_idx(yaddr));
                 let rec = if *how == "enr" { self.rec(&yenr) } else { "none".into() };
@@ -1790,7 +1804,18 @@ impl HandlerRunner {
                 };
                 let to = match rest.get(1) {
                     Some(n) => self.node_pos(n),
-                    None => self.nodes.iter().position(|n| n.addr == d.dst),
+                    None => {
+                        // (the interface scope of an IPv6 destination is the sender's local routing hint)
+                        let dst = match d.dst {
+                            SocketAddr::V6(mut s6) => {
+                                s6.set_scope_id(0);
+                                s6.set_flowinfo(0);
+                                SocketAddr::V6(s6)
+                            }
+                            a => a,
+                        };
+                        self.nodes.iter().position(|n| n.addr == dst)
+                    }
                 };
                 let Some(ti) = to else { return self.finish(None, None, 1, out, stats) };
                 let tidx = self.nodes[ti].idx;
@@ -2729,6 +2754,38 @@ pub fn gen_case(rng: &mut Rng, tier: &str, profile: &str, stats: &mut Stats) -> 
                 ops.push("hrespawn 1".into());
             }
         }
+        ops.push("hquiet".into());
+        return ops;
+    }
+    if profile == "C13scope" {
+        // IPv6 world; a peer opens a session with this node; the node's application then sends it requests
+        // through a contact whose socket address carries an interface scope; the peer answers what reaches
+        // it; when everything has ended no exemption is left
+        stats.bump("gen.cases.scoped-contact");
+        let x = rng.range(1, 2);
+        let y = 3 - x;
+        let mut ops = vec![format!("hworld 2 {} 400 1000 86400000 v6", rng.range(1, 2))];
+        let mut rid = 1u64;
+        if rng.chance(4, 5) {
+            ops.push(format!("hreq {} {} enr {} 1", y, x, rid)); rid += 1;
+            for _ in 0..2 { ops.push("hdel next".into()); }
+            ops.push(format!("hwru {} next known", x));
+            for _ in 0..3 { ops.push("hdel next".into()); }
+            ops.push(format!("hresp {} next auto", x));
+            ops.push("hdel next".into());
+        }
+        for _ in 0..rng.range(1, 3) {
+            ops.push(format!("hreq {} {} scoped {} {}", x, y, rid, rng.range(1, 4))); rid += 1;
+            for _ in 0..3 {
+                ops.push("hdel next".into());
+                ops.push(format!("hwru {} next known", y));
+                ops.push("hdel next".into());
+                ops.push(format!("hresp {} next auto", y));
+                ops.push("hdel next".into());
+            }
+            if rng.chance(1, 2) { ops.push("hadv 450".into()); }
+        }
+        ops.push("hadv 900".into());
         ops.push("hquiet".into());
         return ops;
     }
